@@ -401,8 +401,11 @@ class RF24Mesh(RF24MeshNoMaster):
                 self.frame_buf.header.from_node = self._addr
                 self.frame_buf.message = struct.pack("<H", new_addr)
                 if self.frame_buf.header.to_node != NETWORK_DEFAULT_ADDR:
-                    if not self._write(self.frame_buf.header.to_node, TX_NORMAL):
-                        self._write(self.frame_buf.header.to_node, TX_NORMAL)
+                    # waiting for the NETWORK_ACK passes whatever arrives through frame_buf
+                    to_node, response = (self.frame_buf.header.to_node, self.frame_buf.pack())
+                    if not self._write(to_node, TX_NORMAL):
+                        self.frame_buf.unpack(response)
+                        self._write(to_node, TX_NORMAL)
                 else:
                     self._write(self.frame_buf.header.to_node, TX_PHYSICAL)
                 break
